@@ -79,11 +79,13 @@ Theorem C05_pool_run_executor_cache_transparent :
 Proof. exact pool_run_from_start. Qed.
 Print Assumptions C05_pool_run_executor_cache_transparent.
 
-(** The loaded nets of one handler (same compiled net, any two pool batches over the same stores, any
-    two output sets) are coherent in the sense C02's history theorem asks for. *)
+(** Any two loaded nets of one handler (same compiled net; any two pool batches, also over DIFFERENT
+    sets of stores; any two output sets) are coherent in the sense C02's history theorem asks for:
+    the executor's order cache is keyed on the requested outputs that still have an operation and on
+    the set of nodes whose output is loaded. *)
 Theorem C05_loaded_nets_coherent :
   forall g0 outs outs' p p',
-    wf_base g0 -> map fst p = map fst p' -> NoDup (map fst p) ->
+    wf_base g0 -> NoDup (map fst p) -> NoDup (map fst p') ->
     coherent (loaded g0 outs p) (loaded g0 outs' p').
 Proof. exact loaded_coherent. Qed.
 Print Assumptions C05_loaded_nets_coherent.
@@ -115,6 +117,28 @@ Theorem C05_same_handler_history_transparent :
     = visible (run_batches_fresh {| rs_net := g; rs_pool := pl; rs_cache := empty_cache |} (List.concat h)).
 Proof. exact same_handler_history_transparent. Qed.
 Print Assumptions C05_same_handler_history_transparent.
+
+(** ... and also when stores are removed from the pool between the runs of one inference object
+    (pool.remove_store, then sample() again on the same object): every history of runs on one
+    handler and context returns, batch by batch, what fresh executor caches return. *)
+Theorem C05_history_with_removals_transparent :
+  forall g pl h,
+    wf_base g -> NoDup (map fst (stores pl)) ->
+    visible_h (run_history {| rs_net := g; rs_pool := pl; rs_cache := empty_cache |} h)
+    = visible_h (run_history_fresh {| rs_net := g; rs_pool := pl; rs_cache := empty_cache |} h).
+Proof. exact history_with_removals_from_start. Qed.
+Print Assumptions C05_history_with_removals_transparent.
+
+(** A later run of the same handler after the pool was changed in ANY way that keeps store names
+    distinct (stores removed, added, another pool) still returns what fresh caches return. *)
+Theorem C05_rerun_after_pool_change :
+  forall g pl idxs1 s1 obs1 pl' idxs2,
+    wf_base g -> NoDup (map fst (stores pl)) -> NoDup (map fst (stores pl')) ->
+    run_batches {| rs_net := g; rs_pool := pl; rs_cache := empty_cache |} idxs1 = Ok (s1, obs1) ->
+    visible (run_batches {| rs_net := rs_net s1; rs_pool := pl'; rs_cache := rs_cache s1 |} idxs2)
+    = visible (run_batches_fresh {| rs_net := rs_net s1; rs_pool := pl'; rs_cache := rs_cache s1 |} idxs2).
+Proof. exact pool_rerun_after_pool_change. Qed.
+Print Assumptions C05_rerun_after_pool_change.
 
 (** Non-vacuity of the two theorems above: the compiled MA2-like net meets wf_base, and with a pool
     over the simulator and the summary, three batches run (the second and third through the order
